@@ -11,6 +11,8 @@ CHECKS = {
     'C05': dict(level='exploration', runs=_e1('C05', 'h_e1x'), percase=5, deadline=dict(quick=150, thorough=1500)),
     'C12': dict(level='exploration', runs=_e1('C12', 'h_e1x'), percase=5, deadline=dict(quick=150, thorough=1500)),
     'C13': dict(level='exploration', runs=_e1('C13', 'h_e1x'), percase=5, deadline=dict(quick=150, thorough=1500)),
+    'C07': dict(level='fault_enumeration', runs=_e1('C07', 'h_e2'), percase=5, deadline=dict(quick=150, thorough=1500)),
+    'C08': dict(level='fault_enumeration', runs=_e1('C08', 'h_e2'), percase=5, deadline=dict(quick=150, thorough=1500)),
 }
 
 _E1_NOTE = ('Bounded: orders n<=8 (all patterns only for n<=4), the listed value schemes, orderings, thresholds, tuning tuples; trusted base = the harness, '
